@@ -45,6 +45,10 @@ func vsGenC30(r *sim.Rand, tier string) *sim.Case {
 	c.Cfg["counters"] = int64(counters)
 	c.Cfg["nxkeys"] = int64(nx)
 	c.Cfg["backend"] = int64(r.Pick(0, 0, 1)) // 0 embedded (NoKV.DB), 1 raftBackend over a model store
+	// retry budget of the embedded backend's read-modify-write commands: the shipped 64 is
+	// out of reach for a handful of connections; 1-3 makes "every attempt lost its race"
+	// (an error reply, which must not count as an increment) an ordinary event
+	c.Cfg["txn_retries"] = r.Pick64(0, 0, 1, 2, 3)
 	// scheduling policy: uniform, or PCT (a connection can stay paused across several
 	// complete transactions of the others) with pauses biased to the oracle sites
 	c.Cfg["pct_depth"] = r.Pick64(0, 0, 1, 2, 3)
